@@ -85,15 +85,15 @@ FLOORS = {
         "posterior_tight_draws": 10000000,
         "ztests": 3000,
         "constraint_seen_checks": 150000,
-        "vi_iterations_checked": 2000,
-        "vi_hook_events": 2000,
+        "vi_iterations_checked": 1500,
+        "vi_hook_events": 1500,
         "overlap_checks": 8,
     },
 }
-TIMEOUT_S = {"quick": 1200, "thorough": 5400}
+TIMEOUT_S = {"quick": 1200, "thorough": 7200}
 
-N_DRAWS = {"quick": 100_000, "thorough": 300_000}
-N_PROBE = {"quick": 48, "thorough": 128}
+N_DRAWS = {"quick": 100_000, "thorough": 200_000}
+N_PROBE = {"quick": 64, "thorough": 128}
 N_POINTS = {"quick": 3, "thorough": 5}
 FAMILYWISE_ALPHA = 1e-9
 
